@@ -140,4 +140,39 @@ example :
   · decide
   · simp [fromEth, fits256, asEth, sigVal_bigBytes]
 
+/-! ### signing a message that already carries a signature -/
+
+theorem normal_withSignature (t : EthTx) (v r s : Nat) : (withSignature t v r s).normal = t.normal := by
+  simp [withSignature, EthTx.normal]
+
+/-- **signing again forgets the old signature**: whatever signature the message carried before, the re-signed message
+    unwraps to the same transaction carrying exactly the new values — in particular a new recovery id 0 replaces an
+    old 1 -/
+theorem resign_unwraps_to_new_signature (t : EthTx) (hn : t.normal = true) (p : PTx) (h : fromEth t = some p)
+    (v r s : Nat) (p' : PTx) (h' : signMsg p v r s = some p') :
+    asEth p' = withSignature t v r s := by
+  have hp : asEth p = t := roundtrip t hn p h
+  unfold signMsg at h'
+  rw [hp] at h'
+  exact roundtrip (withSignature t v r s) (by rw [normal_withSignature]; exact hn) p' h'
+
+/-- … and does not depend on it: two messages that hold the same transaction under different signatures are re-signed
+    to the same message -/
+theorem resign_independent_of_old_signature (t : EthTx) (v1 r1 s1 v2 r2 s2 v r s : Nat) (p1 p2 : PTx)
+    (hn : t.normal = true)
+    (h1 : fromEth (withSignature t v1 r1 s1) = some p1) (h2 : fromEth (withSignature t v2 r2 s2) = some p2) :
+    signMsg p1 v r s = signMsg p2 v r s := by
+  have e1 := roundtrip _ (by rw [normal_withSignature]; exact hn) p1 h1
+  have e2 := roundtrip _ (by rw [normal_withSignature]; exact hn) p2 h2
+  unfold signMsg
+  rw [e1, e2]
+  simp [withSignature]
+
+/-- non-vacuity: a dynamic-fee message signed with recovery id 1 is signed again with recovery id 0 — V is the empty
+    byte string afterwards, not the old [1] -/
+example :
+    let t : EthTx := { typ := 2, chainId := 5, nonce := 1, gas := 21000, gasPrice := 0, gasTipCap := 1, gasFeeCap := 9,
+                       to := some 7, value := 3, data := [], access := [], v := 1, r := 4, s := 5 }
+    ((fromEth t).bind (fun p => signMsg p 0 8 9)).map (fun p => (p.v, p.r, p.s)) = some ([], [8], [9]) := by
+  simp [fromEth, signMsg, withSignature, asEth, fits256, sigVal, bigBytes, setBytes, leBytes, ofLE]
 end Haqq.EthTx
